@@ -343,6 +343,31 @@ def rule_replace_and_slots(check, rule, classes=UPGRADED):
                                     % (cname, nm, 'truthiness' if atom[0] == 'truthy' else 'an `is None` test',
                                        'an empty value' if atom[0] == 'truthy' else 'None'), key=kb,
                                     witness='sig.replace(parameters=[]) has no parameters; sig.replace(return_annotation=None) is "-> None"')
+            # ... and the same decision taken at value level, in the arguments handed to super().replace():
+            # `parameters=<override> or self.parameters.values()`
+            for p_ in itb.run(m):
+                for e_, g_ in walk_effects(p_.effects):
+                    if e_.kind == 'call' and e_.op == '.replace' and e_.target is not None and e_.target[0] == 'C' and e_.target[1] == 'super':
+                        for nm, v_ in e_.kws:
+                            if nm not in base_kw:
+                                continue
+                            for s_ in subterms(v_):
+                                sel = None
+                                if s_[0] == 'B' and s_[1] == 'or':
+                                    sel = s_[2]
+                                elif s_[0] == 'IF' and s_[1][0] == 'lit' and s_[1][1][0] in ('truthy', 'isnone'):
+                                    sel = s_[1][1][1]
+                                if sel is None:
+                                    continue
+                                from_override = any(isinstance(x, tuple) and ((x[0] == 'P' and x[1] == nm) or
+                                                                               (x[0] == 'M' and x[2] in ('pop', 'get') and x[3] and x[3][0] == K(nm)))
+                                                    for x in subterms(sel))
+                                kb = '%s|replace|base-override:%s' % (ci.key, nm)
+                                if from_override and kb not in seenb:
+                                    seenb.add(kb)
+                                    check.violation(rule, site_of(m, e_.node), '%s.replace hands %s=%s to the base class: an empty/None override '
+                                                    'falls through to the receiver\'s value' % (cname, nm, show(s_)[:70]), key=kb,
+                                                    witness='sig.replace(parameters=[]) has no parameters')
             if not seenb:
                 check.holds(rule, site_of(m, m.node), '%s.replace hands base-class overrides on without testing them for None/emptiness' % cname,
                             key='%s|replace|base-override' % ci.key)
